@@ -329,6 +329,14 @@ func runC10(c *Ctx) {
 	// ---- K4 / K5
 	c.ruleHolders("K4-holder-completeness", "K5-stops-after-first-error")
 	c.ruleListenerAttach("K6-popped-node-attached")
+	// K7: "when it succeeds the set is entirely replaced or merged as requested": the two
+	// incremental entry points merge through the same model as C08-H2..H5 (and agree on it)
+	for _, spec := range [][3]string{{"builder", "RuleBuilder", "BuildRuleWithIncremental"}, {"engine", "", "updateIncremental"}} {
+		if f := c.MustFn("K7-merged-as-requested", spec[0], spec[1], spec[2]); f != nil {
+			c.mergeModel("K7-merged-as-requested", f)
+		}
+	}
+	c.Min("K7-merged-as-requested", 30)
 }
 
 // ruleUniqueNames (K3 / H7)
